@@ -1930,6 +1930,7 @@ func TestC14(t *testing.T) {
 	c14TimeWindows(t, tr, w)
 	c14Units(t, tr, w)
 	c14Sweeps(t, tr, w)
+	c14CrossApp(t, tr, w)
 	if thorough() {
 		// the same control settings through the real DeliverTx (baseapp's own message cache) for every handler the property names
 		for ci, c := range cat {
